@@ -1,6 +1,7 @@
 package main
 
 import (
+	"encoding/json"
 	"bytes"
 	"context"
 	"fmt"
@@ -437,7 +438,7 @@ func solveOne(eng *Engine, fv *funcVC, k, id int, opt solveOpts) *Result {
 		// stage 1: the fastest solver alone, briefly
 		short := opt.timeout
 		type a1 struct{ s, st, out string }
-		c1 := make(chan a1, 3)
+		c1 := make(chan a1, 5)
 		first := []string{opt.solvers[0]}
 		for _, s := range opt.solvers {
 			if s == "cvc5" && opt.solvers[0] != "cvc5" {
@@ -447,6 +448,24 @@ func solveOne(eng *Engine, fv *funcVC, k, id int, opt solveOpts) *Result {
 		if opt.solvers[0] == "z3new" {
 			first = append(first, "z3qi")
 			files["z3qi"] = files["z3new"]
+		}
+		// speed hint (solver_hints.json, committed; never affects the verdict): the configuration that proved this
+		// obligation last time starts at once instead of after the first stage has timed out
+		if h := solverHints()[ob.Name]; h != "" {
+			have := false
+			for _, s := range first {
+				if s == h {
+					have = true
+				}
+			}
+			if _, known := solverCmd[h]; known && !have {
+				if h == "z3cs" || h == "z3qi" {
+					files[h] = files["z3new"]
+				}
+				if files[h] != "" {
+					first = append(first, h)
+				}
+			}
 		}
 		for _, s := range first {
 			go func(s string) {
@@ -537,6 +556,20 @@ func solveOne(eng *Engine, fv *funcVC, k, id int, opt solveOpts) *Result {
 	// (an "unsat" here proves nothing: replacing a quantified hypothesis in a negative position by finitely many
 	// instances strengthens it, so the model query is not a weakening of the original one)
 	return res
+}
+
+var hintsOnce sync.Once
+var hintsMap map[string]string
+
+// solverHints: obligation name -> solver configuration that discharged it when the hints were recorded.
+func solverHints() map[string]string {
+	hintsOnce.Do(func() {
+		hintsMap = map[string]string{}
+		if data, err := os.ReadFile("/verif/solver_hints.json"); err == nil {
+			json.Unmarshal(data, &hintsMap)
+		}
+	})
+	return hintsMap
 }
 
 func cleanup(base string) {
